@@ -17,17 +17,23 @@ import (
 	"github.com/DDP-Projekt/Kompilierer/src/token"
 )
 
-// attempts to parse an expression but returns a possible error
-func (p *parser) expressionOrErr() (ast.Expression, *ddperror.Error) {
+// attempts to parse an expression but returns a possible error (the first one)
+// and the warnings that were reported while parsing it
+func (p *parser) expressionOrErr() (ast.Expression, *ddperror.Error, []ddperror.Error) {
 	errHndl := p.errorHandler
 
 	var err *ddperror.Error
+	var warnings []ddperror.Error
 	p.errorHandler = func(e ddperror.Error) {
-		err = &e
+		if e.Level != ddperror.LEVEL_ERROR {
+			warnings = append(warnings, e)
+		} else if err == nil {
+			err = &e
+		}
 	}
 	expr := p.expression()
 	p.errorHandler = errHndl
-	return expr, err
+	return expr, err, warnings
 }
 
 // entry for expression parsing
